@@ -62,6 +62,7 @@ func (r *DecoratorResolver) ResolveIdent(file *ast.File, parent ast.Node, parent
 }
 
 func (r *DecoratorResolver) imports(file *ast.File) (map[string]string, error) {
+	r.verifStep(file, "acquire")
 	r.filesM.Lock()
 	defer r.filesM.Unlock()
 	r.verifStep(file, "lock")
